@@ -1,9 +1,11 @@
 """Shared enumeration for C04 / C05 / C12: substitution values S(T) and third values."""
+import collections
+import types
 import uuid
 
 from niltype import Nil
 
-from d42 import fake, substitute, validate
+from d42 import fake, optional, substitute, validate
 from d42.substitution.errors import SubstitutionError
 
 from . import e2
@@ -24,6 +26,8 @@ class _Opaque:
 OPAQUE = register("subst_opaque", _Opaque())
 UNCONVERTIBLE = [OPAQUE, (1, 2), register("subst_set", {1}),
                  uuid.UUID("51c2f442-bf61-11f1-b9da-02fc00000001"), 1 + 2j, bytearray(b"x")]
+# mappings that are not dicts (read-only view, layered lookup): not plain data
+NON_DICT_MAPPINGS = [types.MappingProxyType({"a": 1}), collections.ChainMap({"a": 1}, {"b": 2})]
 
 VLIMIT = {"quick": 100, "thorough": 250}
 
@@ -144,6 +148,24 @@ def subst_values(t, tier, placeholders=True):
     for w in ws[:4]:
         out += _float_leaf_variants(w, (1 + 5e-10, 1 - 5e-10))     # inside the tolerance band
     out += [OPAQUE, (1, 2)]
+    for z in NON_DICT_MAPPINGS:
+        out.append(z)
+        for w in ws[:1]:
+            out += inject(w, z, max_out=6)
+    for w in ws[:2]:
+        if type(w) is dict and w:
+            # a key given wrapped in optional(...) - alone, and next to the same key given plainly
+            ks = list(w)
+            d = {(optional(k) if i == len(ks) - 1 else k): cp(x) for i, (k, x) in enumerate(w.items())}
+            out.append(d)
+            d2 = cp(w)
+            d2[optional(ks[0])] = cp(w[ks[0]])
+            out.append(d2)
+            out += inject(w, {"k": 1, optional("k"): 2}, max_out=4)
+        if isinstance(w, list) and w and placeholders is not None:
+            # 100 and 101 members (beyond any default bound), every member a copy of a conforming one
+            out.append([cp(w[0]) for _ in range(100)])
+            out.append([cp(w[j % len(w)]) for j in range(101)])
     # a str-mixin enum member: a str (== "red") whose str() is something else
     out.append(TAG_RED)
     for w in ws[:1]:
@@ -185,7 +207,10 @@ def clean(s, v):
 
 def third_values(t, v, tier):
     base, _ = value_universe(t, VLIMIT[tier])
-    out = list(base) + [cp(v)] + perturb(v) + [cp(u) for u in UNRELATED]
+    long_list = isinstance(v, list) and len(v) > 20
+    out = list(base) + [cp(v)] + perturb(v, nested=not long_list) + [cp(u) for u in UNRELATED]
+    if long_list:
+        out += [cp(v) + ["q"], cp(v) + [cp(v[0]), "q"], cp(v)[:-1] + ["q"]]
     # just inside and just outside math.isclose's relative tolerance of 1e-9 around each float leaf
     out += _float_leaf_variants(v, (1 + 1.4e-9, 1 - 1.4e-9, 1 + 9e-10, 1 - 9e-10, 1 + 2.5e-9))
     return dedup(out)
